@@ -587,6 +587,11 @@ def check_other_frame(cx, res, ss, ws, w, frame, fname, path=''):
     frame2 = _other_frame(fname)
     s2 = _to_other(ss, frame, frame2)
     S0 = build_sky(s2, frame2)
+    if s2['cls'] == 'line':
+        # the two end points of a line need not share a frame: the start in the other frame, the end in the WCS's
+        import regions as R
+        end_wcs = build_sky(ss, frame).end
+        S0 = R.LineSkyRegion(S0.start, end_wcs, meta=S0.meta, visual=S0.visual)
     leg = f'leg C (sky region in {fname} -> pixel)'
     P3 = _call(cx, 'leg C: to_pixel', lambda: S0.to_pixel(w))
     res.transitions += 1
@@ -643,7 +648,7 @@ def check_other_frame(cx, res, ss, ws, w, frame, fname, path=''):
             for (what, sc0), (_, sc3) in zip(_sky_points(a, cls), _sky_points(c, cls)):
                 with warnings.catch_warnings():
                     warnings.simplefilter('ignore')
-                    t3 = sc3.transform_to(frame2)
+                    t3 = sc3.transform_to(sc0.frame)
                 l0, b0 = W.lonlat(sc0)
                 l3, b3 = W.lonlat(t3)
                 err = np.atleast_1d(W.sep_deg(l3, b3, l0, b0))
@@ -809,6 +814,17 @@ def check_config(res, spec, ws, index=0, pre=None):
         nontriv = bool((geo & rb).any() and (~geo & rb).any())
         a = _call(cx, 'SkyRegion.contains(array)', lambda: S1.contains(sc, w))
         pc = _call(cx, 'PixCoord.from_sky(array)', lambda: PixCoord.from_sky(sc, w))
+        if pc is not None and index % 8 == 0:
+            # the converted positions in the 1-based convention are the 0-based ones plus one (both modes)
+            for mode in ('all', 'wcs'):
+                p0 = _call(cx, f'PixCoord.from_sky(origin=0, mode={mode})', lambda: PixCoord.from_sky(sc, w, origin=0, mode=mode))
+                p1 = _call(cx, f'PixCoord.from_sky(origin=1, mode={mode})', lambda: PixCoord.from_sky(sc, w, origin=1, mode=mode))
+                res.transitions += 2
+                if p0 is not None and p1 is not None:
+                    dev = float(np.max(np.hypot(np.asarray(p1.x) - np.asarray(p0.x) - 1.0, np.asarray(p1.y) - np.asarray(p0.y) - 1.0)))
+                    if not dev <= 1e-8:
+                        cx.bad('from_sky_origin_inconsistent', f'PixCoord.from_sky(origin=1, mode={mode!r}) is not from_sky(origin=0) + 1 '
+                                                               f'(largest deviation {dev:.3g} px)')
         b = None if pc is None else _call(cx, 'pixel image contains(array)', lambda: P2.contains(pc))
         res.transitions += 2
         if a is not None and b is not None:
